@@ -182,7 +182,7 @@ def jadj (io : NumIO Î±) (j : Json) : P (Option (Adj Î±)) := do
   match j with
   | .null => pure none
   | _ => match â† jarr j with
-    | [k, e] => do
+    | k :: e :: _ => do   -- an optional third element ("bare") only tells the Python side to pass a bare number
       let k â† jstr k
       let e â† jexpr io e
       if k == "mul" then pure (some (.mul e)) else if k == "ovr" then pure (some (.ovr e)) else throw "bad adj kind"
@@ -442,6 +442,7 @@ def handle (io : NumIO Î±) (st : DState Î±) (j : Json) : Except String (DState Î
       pure (st, okJ [("times", rnums io (modelTimes m))])
   | "init_pop_eval" => do
       let m â† needModel st
+      let _ â† liftRes (prepare m)   -- `get_initial_population` builds a runner first
       let x0 â† optE (initialPopulation m (â† jparams io (â† jfield j "params"))) "initial population failed"
       pure (st, okJ [("x0", rnums io x0)])
   | "one_step" => do
